@@ -75,6 +75,15 @@ def gen_probe(rng, m, hint=None):
     return kind, []
 
 
+def _same_types(a, b) -> bool:
+    """True and 1 are equal but not the same result: a bit is a bool in both modes (tuples / lists element by element)."""
+    if isinstance(a, (list, tuple)) and isinstance(b, (list, tuple)):
+        return len(a) == len(b) and all(_same_types(x, y) for x, y in zip(a, b))
+    if isinstance(a, bool) or isinstance(b, bool):
+        return isinstance(a, bool) and isinstance(b, bool)
+    return True
+
+
 def probe(ctx, s, m, lsb0, kind, a, case):
     L = len(m)
     r_ = m[::-1]
@@ -83,7 +92,7 @@ def probe(ctx, s, m, lsb0, kind, a, case):
 
     def verdict(got, exp, shape_in, key_extra=''):
         ctx.op(kind, 'ok' if got[0] == 'ok' else type(got[1]).__name__)
-        good = (got[0] == 'ok' and exp[0] == 'ok' and got[1] == exp[1]) or \
+        good = (got[0] == 'ok' and exp[0] == 'ok' and got[1] == exp[1] and _same_types(got[1], exp[1])) or \
                (got[0] == 'exc' and exp[0] == 'exc' and exc_matches(got[1], exp[1]))
         if good:
             ctx.ok((mode, kind, shape_in, key_extra, util.lbucket(L)), lsb0 and L > 0)
